@@ -1,9 +1,9 @@
 ENGINES = [
-    {"name": "R", "path": "vlib/renv.py", "serves_properties": ["C04", "C10", "C14", "C20", "C11", "C18"],
+    {"name": "R", "path": "vlib/renv.py", "serves_properties": ["C04", "C10", "C14", "C20", "C11", "C18", "C02", "C03", "C05", "C06", "C12", "C13", "C17"],
      "kind_free_text": "real gunicorn master + workers started from the working tree through vlib/rfiles/launcher.py, raw-socket clients, gate-file test application, /proc and file-system observation"},
-    {"name": "T", "path": "vlib/tsim.py", "serves_properties": ["C13"],
-     "kind_free_text": "real ThreadWorker.run()/accept/finish_request/murder_keepalived/handle with scripted selector, listener, sockets, executor and virtual time (gunicorn.workers.gthread.time/futures replaced)"},
-    {"name": "K", "path": "vlib/ksim.py", "serves_properties": ["C03", "C11"],
+    {"name": "T", "path": "vlib/tsim.py", "serves_properties": ["C13", "C18", "C11"],
+     "kind_free_text": "real ThreadWorker.init_process (pool, poller, lock)/run()/accept/finish_request/murder_keepalived/handle with scripted selector, listener, sockets, executor, logical threads and virtual time (gunicorn.workers.gthread.time/futures replaced)"},
+    {"name": "K", "path": "vlib/ksim.py", "serves_properties": ["C03", "C11", "C04"],
      "kind_free_text": "real Arbiter.run() with gunicorn.arbiter.{os,time,select,signal,sock,systemd,random} replaced by a simulated kernel driven by a generated schedule vector"},
     {"name": "F", "path": "checks/c17.py", "serves_properties": ["C17"],
      "kind_free_text": "real Pidfile on a scratch directory, gunicorn.pidfile.os/tempfile replaced by proxies (per-instance getpid, model-driven liveness, crash injection)"},
@@ -96,7 +96,7 @@ CHECKS = [
      "technique": "model-based stateful property testing (Hypothesis operation histories against a path->content model) + exhaustive crash-point injection at every proxied system call",
      "text": "Histories of create/validate/rename/unlink/foreign-overwrite/owner-death by several instances on two paths run against the real Pidfile "
              "class (scratch directory, proxied os/tempfile with fake pids) and are compared with a dict model after every step; every system call of "
-             "create and rename is crashed before/after/half-way in 5 starting states and the path must be absent, complete-old or complete-new.",
+             "create and rename (incl. the builtin open/write/close) is crashed before/after/half-way in 6 starting states and the path must be absent, complete-old or complete-new.",
      "note": "fake pids with model-driven kill(pid,0); intra-operation races between two masters not injected; crash = process vanishing at a syscall boundary"},
     {"id": "C03", "engine": "K",
      "technique": "schedule-driven property testing (Hypothesis event histories + schedule vectors) of the real Arbiter.run() on a simulated kernel, against a reference pool model",
@@ -105,11 +105,13 @@ CHECKS = [
              "system call each death (and its SIGCHLD handler) lands; at quiescence live == tracked == model target, no zombies, surplus TERMs oldest-first, "
              "boot errors (3/4) end run() with that status.",
      "note": "signal handlers run at fake-syscall boundaries only; worker processes are simulated (the real worker classes are not run here)"},
-    {"id": "C11", "engine": "K+R",
+    {"id": "C11", "engine": "K+H+T+R",
      "technique": "schedule-driven property testing (Hypothesis) of the real timeout scan in virtual time on a simulated kernel, two-sided oracle; enumerated real-process hang/healthy cases",
      "text": "K: timeouts x pool sizes x heartbeat lags drawn within the wait bound the arbiter really passes x hang events (stops heart-beating, ignores "
              "SIGABRT) x schedules: hung workers must get ABRT within timeout+2 s of their last heartbeat, KILL within 2 s more, be reaped and replaced; "
-             "healthy workers must never get ABRT/KILL from the scan. R: real servers (all worker classes) with hung/stopped/ABRT-ignoring and busy-but-healthy workers.",
+             "healthy workers must never get ABRT/KILL from the scan. H: the real WorkerTmp heartbeat file and murder_workers() on a virtual clock (the file "
+             "records the latest notify(); no signal while it is at most timeout old). T: heartbeat period of the idle gthread loop with parked "
+             "keep-alive connections / a full connection table. R: real servers (all worker classes) with hung/stopped/ABRT-ignoring and busy-but-healthy workers.",
      "note": "virtual time; simulated worker processes in K; wall-clock slack in R (budget overrun = inconclusive)"},
     {"id": "C13", "engine": "T",
      "technique": "schedule-driven stateful property testing (Hypothesis event schedules) of the real ThreadWorker main loop on scripted poller/sockets/executor with virtual time; connection-set model invariants at every yield point",
@@ -118,29 +120,31 @@ CHECKS = [
              "no close while a handler is pending, keep-alive expiry at the first scan after the deadline and never before, ready connections "
              "dispatched within 3 iterations when a thread is free, everything closed and nr_conns == 0 when clients are gone.",
      "note": "handlers run atomically at yield points; bytecode-level races between pool threads and the loop are not simulated; three open findings are excluded by signature"},
-    {"id": "C04", "engine": "R",
-     "technique": "enumerated fault/phase matrix with seeded timing jitter on real master+worker processes (exhaustive matrix in thorough, seeded slice in quick); independent response reader, /proc and file-system oracles",
+    {"id": "C04", "engine": "R+K",
+     "technique": "enumerated fault/phase matrix with seeded timing jitter on real master+worker processes (exhaustive matrix in thorough, seeded slice in quick); independent response reader, /proc and file-system oracles; plus schedule-driven property testing (Hypothesis) of the real Arbiter.run() being stopped on the simulated kernel",
      "text": "Every cell worker class x connection phase at signal time x application behaviour x signal x bind starts a real gunicorn from the working "
              "tree, brings one client connection into the phase, sends the signal and checks: complete response for requests a worker had started "
              "reading (TERM, application finishing in time), master exit status 0 in time, no surviving process in the master's session, listener "
-             "closed, pid file and unix socket file removed.",
+             "closed, pid file and unix socket file removed. K: histories of worker deaths / workers in transit / hung workers / TTIN / TTOU / HUP followed "
+             "by TERM, QUIT or INT to the master x schedule vectors: run() ends in sys.exit(0) in time, every live worker was signalled, none survives.",
      "note": "wall-clock bounds with 4 s slack; the harness owns the phase, not the instruction at which the signal lands; inconclusive cells (server not ready) are counted, not alarmed"},
     {"id": "C10", "engine": "R",
      "technique": "enumerated reload histories with seeded timing on real processes under continuous client load (exhaustive cell matrix in thorough, seeded slice in quick); response-reader and /proc oracles",
-     "text": "Worker class x bind x 8 histories of TTIN/TTOU + 1-3 HUPs with the config file rewritten before each HUP (workers, raw_env marker), "
+     "text": "Worker class x bind spelling (IPv4, unix, host name, IPv6) x 12 histories of TTIN/TTOU + 1-3 HUPs (two with HUP bursts during slow boots; plus two-listener cells) with the config file rewritten before each HUP (workers, raw_env marker), "
              "under a tight loop of short requests on fresh connections and a long gated request in flight across the first HUP: no refused "
              "connect, no cut response, sync answers every accepted connection, the long request is answered by the pid that started it, and after "
              "quiescence the master's children are exactly the new number, all newer than the last HUP, all reporting the new marker.",
      "note": "timing is seeded but real; empty responses on non-sync classes are tolerated per the statement; budget overruns are inconclusive"},
     {"id": "C14", "engine": "R",
      "technique": "enumerated upgrade histories with seeded jitter on real masters under a connect-loop client; pid-file, /proc and socket oracles",
-     "text": "Nine orderings of USR2 / TERM / QUIT / INT on old and new master (incl. second USR2 while pending, a second upgrade of the promoted master, "
-             "rollback then upgrade) x tcp/unix x worker class: no refused connect, pid-file / '.2' naming and promotion within 3 s, the survivor keeps "
+     "text": "Fourteen orderings of USR2 / TERM / QUIT / INT / WINCH / HUP on old and new master (incl. second USR2 while pending, a second upgrade of the "
+             "promoted master, rollback then upgrade, stopping the old master before the new one has started, daemon-mode rollbacks, systemd socket "
+             "activation) x tcp/unix (IPv6 and host-name binds for three of them) x worker class: no refused connect, pid-file / '.2' naming and promotion within 3 s, the survivor keeps "
              "serving and the unix socket file stays, no third master, the rollback restores the single master with its worker count.",
-     "note": "real time with slack; daemon-mode WINCH rollback not in the quick tier"},
+     "note": "real time with slack; masters are identified through pid files and /proc"},
     {"id": "C20", "engine": "R",
      "technique": "enumerated configuration x history matrix on real root-started masters (exhaustive in thorough, seeded slice in quick); /proc identity oracle for every worker generation",
-     "text": "User/group spellings x initgroups x worker class x bind x generation history (worker killed, HUP, USR2, HUP moving the unix bind): every worker "
+     "text": "User/group spellings x initgroups x worker class x bind x generation history (worker killed, HUP, USR2, HUP moving the unix bind, HUP into a config that first sets user/group): every worker "
              "of every generation must show 4 x the configured uid and gid in /proc/<pid>/status (and getgrouplist() with initgroups), the application must "
              "report the same ids, the master stays 0/0, workers survive 2 x timeout, a unix socket is owned uid:gid.",
      "note": "needs root; the image has no account with supplementary groups, so the Groups oracle is [gid]; servers that refuse to start are counted, not alarmed"},
